@@ -35,7 +35,7 @@ def _val(v, form):
 
 
 QUICK = ["abc/explicit", "abt/explicit", "abc/generated", "abc/root", "diamond/explicit",
-         "diamond/generated", "fixed/abc", "abk1k0/explicit", "mix3/abtn/explicit"]
+         "diamond/generated", "fixed/abc", "abk1k0/explicit", "mix3/abtn/explicit", "wide/1"]
 QUICK_OVR = [("ovr2", "abc/explicit"), ("ovr1", "diamond/explicit"), ("ovr1", "abc/generated")]
 THOROUGH = QUICK + ["abct/explicit", "abcdt/explicit", "abu/explicit/w3", "abt/explicit/w3", "d3/abc/explicit", "d3/abt/generated", "fixed/abt",
                     "abtn/explicit", "abt/generated", "abt/root"]
@@ -132,7 +132,7 @@ def check_model(m, acc, mode, fam, k, only_alpha=None, only_ovr=None, only_form=
             for nodes in itertools.combinations(cand, r):
                 for consts in itertools.product((0, 1), repeat=r):
                     ovr_sets.append(tuple(zip(nodes, consts)))
-    for ai, alpha in enumerate(ref.assignments(leaves)):
+    for ai, alpha in enumerate(ref.assignments_dom(leaves, 4)):
         if only_alpha is not None and alpha != only_alpha:
             continue
         for oi, ovr in enumerate(ovr_sets):
